@@ -17,7 +17,13 @@ VARIABLES l, nab
 Has(e, f) == f \in DOMAIN e
 SetOf(s) == {s[i] : i \in 1..Len(s)}
 
-Spec(e) == ChiaOp(e.op, TreeOf(e.args), e.max, SetOf(e.flags), "default", NoCrypto)
+Published == "PUBLISHED" \in DOMAIN IOEnv
+\* with PUBLISHED set, unknown operators are decided by the published rule (exact product) instead of the code's
+Spec(e) ==
+  LET r == ChiaOp(e.op, TreeOf(e.args), e.max, SetOf(e.flags), "default", NoCrypto)
+  IN  IF Published /\ "NO_UNKNOWN_OPS" \notin SetOf(e.flags)
+         /\ r = OpUnknown(e.op, TreeOf(e.args), e.max, ExtFlags(SetOf(e.flags), "default"))
+      THEN OpUnknownPublished(e.op, TreeOf(e.args), e.max, SetOf(e.flags)) ELSE r
 
 Outcome(e) == IF Has(e, "panic") THEN [st |-> "panic"]
               ELSE IF e.ok THEN [st |-> "ok", cost |-> e.cost, val |-> TreeOf(e.val)]
